@@ -41,6 +41,21 @@ def parse(text, names=()):
     return z3.parse_smt2_string("(assert %s)" % text, decls={n: z3.String(n) for n in names})[0]
 
 
+def fold_negative_numerals(e):
+    """(- 3) as produced by the SMT-LIB parser -> the numeral -3 (what ISLa's own parser and the
+    solver produce), so that negative numbers reach ISLa's evaluator as integer values"""
+    if z3.is_app(e) and e.decl().kind() == z3.Z3_OP_UMINUS and z3.is_int_value(e.arg(0)):
+        return z3.IntVal(-e.arg(0).as_long())
+    if z3.is_app(e) and e.num_args() > 0:
+        kids = [fold_negative_numerals(c) for c in e.children()]
+        if any(not k.eq(c) for k, c in zip(kids, e.children())):
+            try:
+                return e.decl()(*kids)
+            except BaseException:
+                return e
+    return e
+
+
 def z3_truth(expr, timeout_ms=4000):
     s = z3.simplify(expr)
     if z3.is_true(s):
@@ -115,7 +130,7 @@ def to_isla(t):
     if k == "str":
         return isla_string(t["s"])
     if k == "int":
-        return str(t["i"]) if t["i"] >= 0 else "(- %d)" % -t["i"]
+        return str(t["i"])          # ISLa's lexer knows negative integer literals
     if k == "bool":
         return "true" if t["b"] else "false"
     f = t["f"]
@@ -187,6 +202,8 @@ def run(task):
             rec = {"id": case["id"] * 10 + k, "fam": fam, "term": atom}
             try:
                 ground = parse(smt.to_smt2(atom))
+                if case["id"] % 2 == 0:       # every other term: negative literals as numerals
+                    ground = fold_negative_numerals(ground)
             except BaseException as ex:
                 if isinstance(ex, (KeyboardInterrupt, SystemExit)):
                     raise
@@ -200,6 +217,8 @@ def run(task):
             if env:
                 def route2():
                     expr = parse(smt.to_smt2(lifted), env.keys())
+                    if case["id"] % 2 == 0:
+                        expr = fold_negative_numerals(expr)
                     vs = {n: BoundVariable(n, "<%s>" % n) for n in env}
                     f = SMTFormula(expr, *vs.values())
                     g = f.substitute_expressions({vs[n]: DerivationTree("<%s>" % n, [DerivationTree(s, ())]) for n, s in env.items()})
